@@ -256,23 +256,23 @@ def build_aerostruct(surfs, flow=None, npoints=1, compressible=False, rotational
     return p
 
 
-def tighten(p, npoints=1, rtol=1e-13, maxiter=500, nl="aitken", lin="direct"):
+def tighten(p, npoints=1, rtol=1e-13, maxiter=500, nl="aitken", lin="direct", atol=1e-8, lin_tol=1e-10):
     """user-level solver settings on the coupled groups (after setup, before run)"""
     for i in range(npoints):
         cp = getattr(p.model, "AS_point_%d" % i).coupled
         if nl == "aitken":
-            cp.nonlinear_solver = om.NonlinearBlockGS(use_aitken=True, maxiter=maxiter, atol=1e-30, rtol=rtol, err_on_non_converge=True, iprint=-1)
+            cp.nonlinear_solver = om.NonlinearBlockGS(use_aitken=True, maxiter=maxiter, atol=atol, rtol=rtol, err_on_non_converge=True, iprint=-1)
         elif nl == "nlbgs":
-            cp.nonlinear_solver = om.NonlinearBlockGS(use_aitken=False, maxiter=maxiter, atol=1e-30, rtol=rtol, err_on_non_converge=True, iprint=-1)
+            cp.nonlinear_solver = om.NonlinearBlockGS(use_aitken=False, maxiter=maxiter, atol=atol, rtol=rtol, err_on_non_converge=True, iprint=-1)
         elif nl == "newton":
-            cp.nonlinear_solver = om.NewtonSolver(solve_subsystems=True, maxiter=60, atol=1e-30, rtol=max(rtol, 1e-12), err_on_non_converge=True, iprint=-1)
+            cp.nonlinear_solver = om.NewtonSolver(solve_subsystems=True, maxiter=60, atol=atol, rtol=max(rtol, 1e-12), err_on_non_converge=True, iprint=-1)
             cp.nonlinear_solver.linesearch = None
         if lin == "direct":
             cp.linear_solver = om.DirectSolver(assemble_jac=True)
         elif lin == "lbgs":
-            cp.linear_solver = om.LinearBlockGS(maxiter=400, atol=1e-30, rtol=1e-13, err_on_non_converge=True, iprint=-1)
+            cp.linear_solver = om.LinearBlockGS(maxiter=1000, atol=lin_tol, rtol=lin_tol, err_on_non_converge=True, iprint=-1)
         elif lin == "krylov":
-            cp.linear_solver = om.ScipyKrylov(maxiter=400, atol=1e-30, rtol=1e-13, err_on_non_converge=True, iprint=-1)
+            cp.linear_solver = om.ScipyKrylov(maxiter=1000, atol=lin_tol, rtol=lin_tol, err_on_non_converge=True, iprint=-1)
             cp.linear_solver.precon = om.LinearRunOnce(iprint=-1)
         elif lin == "krylov_plain":
             cp.linear_solver = om.ScipyKrylov(maxiter=2000, atol=1e-30, rtol=1e-13, err_on_non_converge=True, iprint=-1)
